@@ -321,7 +321,15 @@ func (g *gen) history(maxSteps int) string {
 		if g.rng.Chance(1, 25) {
 			// write what is already there: unchanged (errSameConfig) unless the reload is forced
 			fl := g.rng.Pick([]string{"-", "-", "f"})
-			s.exec(stepLine(g.rng.Pick([]string{"A", "A", "P"}), path, bodyOf(node), "-", fl))
+			v := node
+			if g.rng.Chance(1, 2) {
+				// … or something that is ALMOST what is already there (one letter in another case):
+				// that is a change and has to be loaded
+				if nv, ok := nearCopy(clone(node)); ok {
+					v = nv
+				}
+			}
+			s.exec(stepLine(g.rng.Pick([]string{"A", "A", "P"}), path, bodyOf(v), "-", fl))
 			continue
 		}
 		switch k := g.rng.Intn(100); {
@@ -452,4 +460,45 @@ func (prop) Generate(rng *core.Rand, tier string, emit func(string)) {
 	// map write", which takes the process (and whatever was still to run) with it
 	emit("idrace " + strconv.Itoa(100+rng.Intn(100)))
 	emit("peek " + strconv.Itoa(2+rng.Intn(4)) + " " + strconv.Itoa(100+rng.Intn(100)))
+}
+
+func swapFirstLetter(s string) (string, bool) {
+	for i := 0; i < len(s); i++ {
+		c := s[i]
+		if (c >= 'a' && c <= 'z') || (c >= 'A' && c <= 'Z') {
+			return s[:i] + string(c^0x20) + s[i+1:], true
+		}
+	}
+	return s, false
+}
+
+// nearCopy changes the case of one letter of the first string value (or harmless key) of v.
+func nearCopy(v any) (any, bool) {
+	switch x := v.(type) {
+	case string:
+		return swapFirstLetter(x)
+	case []any:
+		for i := range x {
+			if nv, ok := nearCopy(x[i]); ok {
+				x[i] = nv
+				return x, true
+			}
+		}
+	case map[string]any:
+		for _, k := range sortedKeys(x) {
+			if nv, ok := nearCopy(x[k]); ok {
+				x[k] = nv
+				return x, true
+			}
+		}
+		for _, k := range sortedKeys(x) {
+			nk, ok := swapFirstLetter(k)
+			if _, taken := x[nk]; ok && !taken && !forbiddenName(nk) && k != "apps" && k != "c12" && k != "@id" && k != "reject" {
+				x[nk] = x[k]
+				delete(x, k)
+				return x, true
+			}
+		}
+	}
+	return v, false
 }
